@@ -60,6 +60,9 @@ def epub_bytes(chapters: list[tuple[str, str]], *, title="VF Book", creator="VF 
             href = chapters[i][0]
             items.append(f'<item id="ch{i}" href="{escape(href)}" media-type="application/xhtml+xml"/>')
         for j, (href, mt, _data) in enumerate(images or []):
+            if _data is None:
+                items.append(f'<item id="ghost{j}" href="{escape(href)}" media-type="{mt}"/>')     # listed in the manifest, absent from the archive
+                continue
             items.append(f'<item id="img{j}" href="{escape(href)}" media-type="{mt}"/>')
         items.append('<item id="ncx" href="toc.ncx" media-type="application/x-dtbncx+xml"/>')
         spine = "".join(f'<itemref idref="ch{i}"/>' for i in spine_order)
@@ -74,7 +77,8 @@ def epub_bytes(chapters: list[tuple[str, str]], *, title="VF Book", creator="VF 
         for href, text in chapters:
             z.writestr(opf_dir + href, text.encode("utf-8"), compress_type=zipfile.ZIP_DEFLATED)
         for href, mt, data in images or []:
-            z.writestr(opf_dir + href, data, compress_type=zipfile.ZIP_STORED)
+            if data is not None:
+                z.writestr(opf_dir + href, data, compress_type=zipfile.ZIP_STORED)
         for name, data in (extra_files or {}).items():
             z.writestr(name, data)
     return buf.getvalue()
